@@ -3470,7 +3470,10 @@ class Session(object):
         """
         with self._lock:
             self.keyspace = keyspace
-            remaining_callbacks = set(self._pools.values())
+            pools = tuple(self._pools.values())
+        # the pools that are switched are the pools that are waited for: a pool added or removed
+        # meanwhile must neither be waited for in vain nor call back without being expected
+        remaining_callbacks = set(pools)
         errors = {}
 
         if not remaining_callbacks:
@@ -3485,7 +3488,7 @@ class Session(object):
             if not remaining_callbacks:
                 callback(errors)
 
-        for pool in tuple(self._pools.values()):
+        for pool in pools:
             pool._set_keyspace_for_all_conns(keyspace, pool_finished_setting_keyspace)
 
     def user_type_registered(self, keyspace, user_type, klass):
